@@ -34,6 +34,7 @@ def run(ctx):
     lib_kind.py_lints(ctx, py, mods=("trees",), only=ps)
     lib_kind4.root_threshold(ctx, py)
     lib_kind4.diff_order(ctx, py)
+    lib_kind4.virtual_root_lists(ctx, py)
     lib_kind.py_copy_state(ctx, py, [("trees", "Tree")])
     lib_py.kw_forward(ctx, py, mods=("trees",), only=ps)
     lib_variant.sample_walks(ctx, P, tus=("trees",), floor=2)
